@@ -282,6 +282,10 @@ def check_corruptions(spec, ctx):
         expect_refusal(ctx, "CDSInterval:frames_length", lambda: CDSInterval(cs_, ce_, S_, fr[:-1]), valid_interval)
         expect_refusal(ctx, "CDSInterval:mixed_frame_phase", lambda: CDSInterval(cs_ + [ce_[-1] + 2], ce_ + [ce_[-1] + 4], S_, fr + [CDSPhase.ZERO]), valid_interval)
         expect_refusal(ctx, "CDSInterval:empty", lambda: CDSInterval([cs_[0]], [cs_[0]], S_, [CDSFrame.ZERO]), valid_interval)
+        # frames follow the blocks 5'->3': a location of several blocks without direction has no frames (one block has: its own)
+        if len(cs_) >= 2:
+            expect_refusal(ctx, "construct_frames_from_location:several_blocks_without_direction",
+                           lambda: CDSInterval.construct_frames_from_location(CompoundInterval(cs_, ce_, Strand.UNSTRANDED), CDSFrame.ONE), lambda x: "answered %r" % (x,))
         # the refusals above leave nothing behind: a valid CDS annotated with GFF3 phases is accepted afterwards (twice) and
         # holds exactly its own frames, one per block
         for again in (0, 1):
